@@ -306,7 +306,7 @@ def teardown(ctx):
 
 
 WORKLOADS = [
-    Workload("ids", wl_ids, quick=lambda: len(ALL_TYPES) * 40, thorough=lambda: len(ALL_TYPES) * 1500),
+    Workload("ids", wl_ids, quick=lambda: len(ALL_TYPES) * 40, thorough=lambda: len(ALL_TYPES) * 10000),
     __import__("stixmon.ambient", fromlist=["workload"]).workload("C06"),
 ]
 
